@@ -13,7 +13,8 @@
      Without a shared remembered header nothing is committed and the store is untouched.
    - [C04_long_fork_never_adopted]: the same at the level of the handler's outcome.
    - [C04_rollback_removes_abandoned_history]: after rollback_to_block(to), no history entry at or above
-     [to] of a rolled-back script remains.
+     [to] of any registered script remains, whatever block number is recorded for the script (repair: index entries
+     written before a crash that kept the numbers from being raised are rolled back too).
    - [C04_rollback_resumes_filtering]: filter progress is moved below the rollback point.
    - [C04_rollback_restores_the_index] (end to end, every chain, every script set, every number of abandoned blocks):
      index a chain bs1 ++ bs2 block by block, then roll back to n with bs1 below n and bs2 at or above n: the rollback
@@ -21,8 +22,10 @@
      specification C03 proves the index against) - every cell the abandoned blocks created is gone, every cell they
      spent is live again, nothing else changed.  Hypotheses = what a valid chain in ascending order guarantees
      (distinct block numbers and transaction hashes, inputs name transactions at lower positions, an out-point is spent
-     once) + every registered script is at or above the rollback point (the scripts rollback_to_block processes) and
-     the script set has no duplicates (update_filter_scripts upserts). *)
+     once) + the script set has no duplicates (update_filter_scripts upserts).  No assumption on the block numbers
+     recorded for the scripts: since the repair of rollback_to_block every script's history is scanned (before, the
+     entries of a script whose number a crash had kept from being raised survived the rollback - found by the
+     crash enumeration of op c08 once fork switches there really rolled back). *)
 From Coq Require Import NArith List.
 From LC Require Import Res LastStateProof LastStateProofProofs Store StoreProofs IndexSpec IndexRefinement IndexSpecMeaning RollbackRefinement.
 Import ListNotations.
@@ -66,7 +69,7 @@ Print Assumptions C04_long_fork_never_adopted.
 Theorem C04_rollback_removes_abandoned_history :
   forall st to st' ss bn ti ci io t,
     rollback_to_block st to = Ok st' ->
-    In ss (scripts st) -> to <= ss_number ss -> to <= bn -> (io = 0 \/ io = 1) ->
+    In ss (scripts st) -> to <= bn -> (io = 0 \/ io = 1) ->
     ~ In ((ss_type ss, ss_script ss, bn, ti, ci, io), t) (history st').
 Proof. exact rollback_history_gone. Qed.
 Print Assumptions C04_rollback_removes_abandoned_history.
@@ -83,7 +86,7 @@ Theorem C04_rollback_restores_the_index :
     well_formed_chain (bs1 ++ bs2) -> refs_backwards (chain_txs (bs1 ++ bs2)) ->
     lower_positions (chain_txs (bs1 ++ bs2)) -> spent_once (chain_txs (bs1 ++ bs2)) ->
     (forall b, In b bs1 -> b_number b < n) -> (forall b, In b bs2 -> n <= b_number b) ->
-    (forall ss, In ss regs -> n <= ss_number ss) -> NoDup (map (fun x => (ss_type x, ss_script x)) regs) ->
+    NoDup (map (fun x => (ss_type x, ss_script x)) regs) ->
     exists st', rollback_to_block (fold_left filter_block (bs1 ++ bs2) (fresh_store regs)) n = Ok st' /\
                 forall k, a_get ckey_eqb k (cells st') = spec_chain (reg_of regs) bs1 k.
 Proof. exact rollback_restores_index. Qed.
@@ -115,7 +118,7 @@ Proof.
 Qed.
 
 Example C04_rollback_example_result :
-  match rollback_to_block (fold_left filter_block (ex_bs1 ++ ex_bs2) (fresh_store [mkSS 5 0 2])) 2 with
+  match rollback_to_block (fold_left filter_block (ex_bs1 ++ ex_bs2) (fresh_store [mkSS 5 0 0])) 2 with
   | Ok st' => map fst (cells st') = [(0, 5, 1, 0, 0); (0, 5, 1, 0, 1)] /\
               map fst (history st') = [(0, 5, 1, 0, 1, 1); (0, 5, 1, 0, 0, 1)]
   | _ => False
